@@ -96,6 +96,11 @@ def sanitiser(res, prog, c):
     res.rule('C17.2', 0, floor=6, note='lookup_leafname = leafname() minus drive prefixes, with "", "." and ".." rejected; leafname splits on both separator styles')
     f = need_fn(res, c, 'breakpad_symbols::lookup_leafname', 'C17.2')
     if f is not None:
+        # judged with its private predicates inlined and constant flags threaded: `while has_prefix(leaf)` and
+        # `let bad = matches!(leaf, "" | "." | ".."); if bad` are the same sanitiser as the spelled-out tests
+        import normal
+        views, _abs = with_helpers(prog, 'breakpad_symbols', r'^breakpad_symbols::lookup_leafname$')
+        f = normal.thread_flags(views.get('breakpad_symbols::lookup_leafname', f))
         # the value under test: leafname(path) itself, or a local that only ever holds leafname(path) or a suffix of itself
         def suffix_of(l, tree):
             t = f.expand(tree)
@@ -161,7 +166,7 @@ def sanitiser(res, prog, c):
             if len(strips) != 1:
                 continue
             l, sb, rng = strips[0]
-            if [show(x) for x in rng[2:]] != ['2']:
+            if [show(panics.resolve_items(prog, 'breakpad_symbols', x)) for x in rng[2:]] != ['2']:
                 why = 'the loop strips %s, not two bytes' % show(rng)
                 continue
 
@@ -193,6 +198,8 @@ def sanitiser(res, prog, c):
             # the loop then still implies that the leaf has no `<letter>:` prefix)
             exits_ok = True
             for b in body:
+                if b not in f.reach:
+                    continue   # left over by the threading of a flag
                 t = f.blocks[b]['t']
                 outs = [x for x in f.succ[b] if x not in body]
                 if not outs:
